@@ -284,6 +284,9 @@ func (w *recWriter) Write(p []byte) (int, error) {
 		return 0, errWriterFailed
 	case 2:
 		return len(p) / 2, io.ErrShortWrite
+	case 3:
+		// (outside the io.Writer contract, but what fmt.Fprint hands back too)
+		return len(p) / 2, nil
 	}
 	return len(p), nil
 }
